@@ -40,6 +40,8 @@ def ty_vy(t):
         return f"Bytes[{t[1]}]"
     if k == "string":
         return f"String[{t[1]}]"
+    if k == "flag":
+        return t[1]
     raise ValueError(t)
 
 
@@ -49,6 +51,8 @@ def ty_abi(t):
         return "bytes"
     if k == "string":
         return "string"
+    if k == "flag":
+        return "uint256"
     if k in ("int", "bool"):
         return ty_vy(t)
     if k == "addr":
@@ -66,6 +70,8 @@ def ty_coq(t):
     k = t[0]
     if k == "int":
         return f"(TInt {t[1]} {'true' if t[2] else 'false'})"
+    if k == "flag":      # a flag with n members is an n-bit mask: ABI validation is `value < 2**n`
+        return f"(TInt {t[2]} false)"
     if k == "bool":
         return "TBool"
     if k == "addr":
@@ -85,7 +91,7 @@ def ty_coq(t):
 
 def zero_val(t):
     k = t[0]
-    if k in ("int", "addr"):
+    if k in ("int", "addr", "flag"):
         return 0
     if k == "bool":
         return False
@@ -120,6 +126,9 @@ def val_vy(v, t):
         return "True" if v else "False"
     if k == "bytes":
         return 'b"' + "".join(f"\\x{b:02x}" for b in v) + '"'
+    if k == "flag":
+        ms = [f"{t[1]}.M{i}" for i in range(t[2]) if (v >> i) & 1]
+        return "(" + " | ".join(ms) + ")" if ms else f"empty({t[1]})"
     if k == "string":
         return '"' + bytes(v).decode("ascii") + '"'
     if k == "int":
@@ -222,7 +231,8 @@ def e_vy(e):
     if k == "ifexp":
         return f"({e_vy(e.a)} if {e_vy(e.c)} else {e_vy(e.b)})"
     if k == "call":
-        return f"self.{e.name}(" + ", ".join(e_vy(a) for a in e.args) + ")"
+        shown = e.args if e.f.get("given") is None else e.args[:e.given]     # the rest are the callee's defaults
+        return f"self.{e.name}(" + ", ".join(e_vy(a) for a in shown) + ")"
     if k == "idx":
         return f"{e_vy(e.a)}[{e_vy(e.i)}]"
     if k == "fld":
@@ -243,6 +253,10 @@ def e_vy(e):
         return "[" + ", ".join(e_vy(x) for x in e.elems) + "]"
     if k == "pop":
         return f"{base_vy(e.base)}{path_vy(e.path)}.pop()"
+    if k == "flagnot":
+        return f"(~{e_vy(e.a)})"
+    if k == "flagin":
+        return f"({e_vy(e.a)} {'not in' if e.neg else 'in'} {e_vy(e.b)})"
     if k == "shift":
         return f"({e_vy(e.a)} {'<<' if e.left else '>>'} {e_vy(e.b)})"
     if k == "concat":
@@ -358,6 +372,11 @@ def e_coq(e):
         return "(EList [" + "; ".join(e_coq(x) for x in e.elems) + "])"
     if k == "pop":
         return f"(EPop ({base_coq(e.base)}) {path_coq(e.path)})"
+    if k == "flagnot":     # ~x on a flag with n members = x xor (2**n - 1)
+        return f"(EBin BXor {ty_coq(e.ty)} {e_coq(e.a)} (EConst (VInt {2 ** e.ty[2] - 1})))"
+    if k == "flagin":      # a in b  <=>  a & b != 0
+        ft = e.a.ty
+        return f"(ECmp {'Eq' if e.neg else 'Ne'} (EBin BAnd {ty_coq(ft)} {e_coq(e.a)} {e_coq(e.b)}) (EConst (VInt 0)))"
     if k == "shift":
         return f"(EShift {'true' if e.left else 'false'} {ty_coq(e.ty)} {e_coq(e.a)} {e_coq(e.b)})"
     if k == "concat":
@@ -412,17 +431,19 @@ def block_coq(b):
 
 # ------------------------------------------------------------------ programs
 class Fun:
-    def __init__(self, name, params, ret, body, external, payable=False, decorators=()):
+    def __init__(self, name, params, ret, body, external, payable=False, decorators=(), defaults=None):
         self.name, self.params, self.ret, self.body = name, params, ret, body  # params: [(name, ty)]
         self.external, self.payable, self.decorators = external, payable, tuple(decorators)
+        self.defaults = dict(defaults or {})     # parameter index -> literal E (a suffix of the parameters)
 
     def vy(self, out):
-        out.append("@external" if self.external else "@internal")
+        out.append("@deploy" if getattr(self, "deploy", False) else ("@external" if self.external else "@internal"))
         if self.payable:
             out.append("@payable")
         for d in self.decorators:
             out.append(d)
-        sig = ", ".join(f"{n}: {ty_vy(t)}" for n, t in self.params)
+        sig = ", ".join(f"{n}: {ty_vy(t)}" + (f" = {e_vy(self.defaults[i])}" if i in self.defaults else "")
+                        for i, (n, t) in enumerate(self.params))
         out.append(f"def {self.name}({sig})" + (f" -> {ty_vy(self.ret)}" if self.ret is not None else "") + ":")
         block_vy(self.body, 1, out)
         out.append("")
@@ -431,17 +452,22 @@ class Fun:
         return (f"(mkFun [{'; '.join(ty_coq(t) for _, t in self.params)}] "
                 f"{'true' if self.payable else 'false'} {block_coq(self.body)})")
 
-    def abi_sig(self):
-        return f"{self.name}(" + ",".join(ty_abi(t) for _, t in self.params) + ")"
+    def abi_sig(self, given=None):
+        ps = self.params if given is None else self.params[:given]
+        return f"{self.name}(" + ",".join(ty_abi(t) for _, t in ps) + ")"
 
 
 class Program:
     def __init__(self):
+        self.flags = []      # flag types ('flag', name, n)
         self.structs = []    # struct types
         self.events = []     # (name, [(fname, ty)])
         self.sto = []        # (name, ty)
         self.tra = []        # (name, ty)
         self.reasons = []    # revert reason strings (index = id used by the Coq term)
+        self.imm = set()     # names of `sto` entries that are immutables: written by the constructor only.  The model
+                             # treats them as storage variables (same meaning); they have no storage slot.
+        self.ctor = None     # constructor Fun (modelled as one more external function, run first)
         self.ints = []       # internal Fun (index = Coq index; only lower indices are called)
         self.exts = []       # external Fun
 
@@ -462,7 +488,7 @@ class Program:
             for b in s_blocks(s):
                 for x in b:
                     vs(x)
-        for f in self.exts:
+        for f in self.exts + ([self.ctor] if self.ctor is not None else []):
             for s in f.body:
                 vs(s)
         return seen
@@ -471,6 +497,11 @@ class Program:
         """prune=True: omit internal functions no external function reaches (for reports; the Coq term is not pruned)"""
         keep = self.reachable_ints() if prune else None
         out = []
+        for fl in self.flags:
+            out.append(f"flag {fl[1]}:")
+            for i in range(fl[2]):
+                out.append(f"    M{i}")
+            out.append("")
         for st in self.structs:
             out.append(f"struct {st[1]}:")
             for fn, ft in st[2]:
@@ -484,13 +515,15 @@ class Program:
                 out.append("    pass")
             out.append("")
         for name, t in self.sto:
-            out.append(f"{name}: {ty_vy(t)}")
+            out.append(f"{name}: immutable({ty_vy(t)})" if name in self.imm else f"{name}: {ty_vy(t)}")
         for name, t in self.tra:
             out.append(f"{name}: transient({ty_vy(t)})")
         out.append("")
         for i, f in enumerate(self.ints):
             if keep is None or i in keep:
                 f.vy(out)
+        if self.ctor is not None:
+            self.ctor.vy(out)
         for f in self.exts:
             f.vy(out)
         return "\n".join(out)
@@ -499,7 +532,7 @@ class Program:
         return ("(mkProg [" + "; ".join(ty_coq(t) for _, t in self.sto) + "] ["
                 + "; ".join(ty_coq(t) for _, t in self.tra) + "]\n  ["
                 + ";\n   ".join(f.coq() for f in self.ints) + "]\n  ["
-                + ";\n   ".join(f.coq() for f in self.exts) + "])")
+                + ";\n   ".join(f.coq() for f in self.exts + ([self.ctor] if self.ctor is not None else [])) + "])")
 
     def uses_transient(self):
         return bool(self.tra)
@@ -551,7 +584,7 @@ def count_kinds(prog, acc):
         for b in s_blocks(s):
             for x in b:
                 vs(x)
-    for f in prog.ints + prog.exts:
+    for f in prog.ints + prog.exts + ([prog.ctor] if getattr(prog, "ctor", None) is not None else []):
         for s in f.body:
             vs(s)
     return acc
